@@ -259,10 +259,10 @@ def run_job(job):
         z = int.from_bytes(h256(msg + flag.to_bytes(4, "little")), "big")
         idx = 0
         for prefix in range(0, 8):
-            for x in range(0, C.p + 2):
+            for x in range(0, 2 * C.p + 2):
                 # 33-byte buffers
                 for ln in (33, 65):
-                    ys = [None] if ln == 33 else range(0, C.p + 2)
+                    ys = [None] if ln == 33 else range(0, 2 * C.p + 2)
                     for y in ys:
                         idx += 1
                         if idx % nsh != sh:
@@ -280,7 +280,18 @@ def run_job(job):
                                 acc.ob("pubkey_off_curve")
                         if prefix in (6, 7):
                             acc.ob("hybrid_prefix")
-                        d = dlog.get(Q) if Q else 3
+                        # sign for the point the buffer names AFTER reducing its coordinates mod p, so that a decoder
+                        # which forgets the "coordinate < p" rule would see a valid signature
+                        if Q is None:
+                            xr = x % C.p
+                            if ln == 33:
+                                yr = C.lift_x(xr, odd=bool(prefix & 1))
+                                Qr = (xr, yr) if yr is not None else None
+                            else:
+                                Qr = (xr, y % C.p) if C.on_curve((xr, y % C.p)) else None
+                        else:
+                            Qr = Q
+                        d = dlog.get(Qr) if Qr else 3
                         rs = valid_sig_for(C, d, z)
                         sig = D.encode(*rs) + bytes([flag])
                         acc.evaluations += 1
